@@ -698,6 +698,26 @@ impl TransportVisitor for VB {
                 }
                 let tx = n.new_tx_buffer(10);
                 call!("send", n.send(tx));
+                // A burst: two buffers held by the caller at once and handed back oldest first,
+                // then every buffer used once more. A buffer the caller receives must be the one
+                // the device used (never one that is still posted).
+                adversary_fill(&co, kind, 0, &frame);
+                adversary_fill(&co, kind, 0, &frame);
+                let mut held: Vec<virtio_drivers::device::net::RxBuffer> = vec![];
+                call!("receive#3", n.receive().map(|rx| held.push(rx)));
+                call!("receive#4", n.receive().map(|rx| held.push(rx)));
+                while !held.is_empty() {
+                    let rx = held.remove(0);
+                    call!("recycle_rx_buffer(oldest first)", n.recycle_rx_buffer(rx));
+                }
+                for _ in 0..3 {
+                    adversary_fill(&co, kind, 0, &frame);
+                    let mut slot = None;
+                    call!("receive(after recycling)", n.receive().map(|rx| slot = Some(rx)));
+                    if let Some(rx) = slot {
+                        call!("recycle_rx_buffer(after recycling)", n.recycle_rx_buffer(rx));
+                    }
+                }
             }
             AnyDriver::Rng(r) => {
                 let mut dst = [0u8; 16];
